@@ -32,7 +32,7 @@ Lemma step_logs c s m :
    ∃ x, donated s' = x :: donated s ∧ ((0 < x.2)%Z ∨ ∃ w, w ∈ L2.wlog (l2 s) ∧ x.2 = L2.w_amt w)).
 Proof.
   cbn zeta.
-  destruct m as [e sender to d amt data|e from to d amt|m2|k ex h hook|e p idx l2b lo hi v bh|e ch idx|e sender idx m lo hi v bh|e m1];
+  destruct m as [e sender to d amt data|e from to d amt|m2|k ex h hook|e p idx l2b lo hi v bh|e ch idx|e sender idx m lo hi v bh|e m1|e mo];
     cbn [sys_step].
   - (* deposit *)
     case_bool_decide; [cbn; auto|]. unfold lift1, L1.step. cbn [L1.handle].
@@ -77,6 +77,11 @@ Proof.
     destruct (L1.handle (c1 c) e (l1 s) m1) as [[s1 r]|] eqn:Hh; [|cbn; auto].
     apply (l1_admin_frame _ _ _ _ _ _ Ha) in Hh as (_ & Hel & _ & _). cbn [fst set_l1 l1 l2 donated].
     split; [left; by apply bevents_same|auto].
+  - (* another bridge / creation *)
+    pose proof (other_step_spec c s e mo) as Hsp; cbn zeta in Hsp; cbn [sys_step] in Hsp; destruct Hsp as (_ & _ & [->|(s1 & rr & Hok & Hh & Hl1 & Hdn)]); [auto|].
+    destruct (other_handle_spec c e (l1 s) mo s1 rr Hok Hh) as (Hel & _ & _ & _ & Hpos).
+    rewrite Hl1, Hdn. split; [by left|]. destruct (other_donation c mo) as [x|]; [|by left].
+    right. exists x. split; [done|]. left. by apply Hpos.
 Qed.
 
 Definition l2ok (c : scfg) (s : sys) : Prop := C04Proofs.inv (c2 c) (l2 s).
@@ -102,7 +107,7 @@ Lemma step_l2ok c s m :
   L2.resolve (c2 c) [] = None → nonneg c s → l2ok c s → l2ok c (sys_step c s m).1.
 Proof.
   intros Hnil [N1 _] Hok. unfold l2ok in *.
-  destruct m as [e sender to d amt data|e from to d amt|m2|k ex h hook|e p idx l2b lo hi v bh|e ch idx|e sender idx m lo hi v bh|e m1];
+  destruct m as [e sender to d amt data|e from to d amt|m2|k ex h hook|e p idx l2b lo hi v bh|e ch idx|e sender idx m lo hi v bh|e m1|e mo];
     cbn [sys_step].
   - case_bool_decide; [done|]. unfold lift1. destruct (L1.step _ _ _ _) as [s1 [r|]]; done.
   - case_bool_decide; [done|]. unfold lift1. destruct (L1.step _ _ _ _) as [s1 [r|]]; [|done].
@@ -119,6 +124,7 @@ Proof.
   - unfold lift1. destruct (L1.step _ _ _ _) as [s1 [r|]]; done.
   - destruct (find_w (l2 s) m) as [w|]; [|done]. unfold lift1. destruct (L1.step _ _ _ _) as [s1 [r|]]; done.
   - destruct (l1_admin m1); [|done]. unfold lift1. destruct (L1.step _ _ _ _) as [s1 [r|]]; done.
+  - pose proof (other_step_spec c s e mo) as Hsp; cbn zeta in Hsp; cbn [sys_step] in Hsp; destruct Hsp as (-> & _). done.
 Qed.
 
 Lemma run_ok c h : ∀ s, L2.resolve (c2 c) [] = None → nonneg c s → l2ok c s →
@@ -154,7 +160,7 @@ Proof.
   { intros m2 s2 r Hh. apply bank_sane_iff in Hs as [Hn Hk]. apply bank_sane_iff. split.
     - eapply BankNonneg.handle_nonneg; eauto.
     - eapply BankTotal.handle_ok; eauto. }
-  destruct m as [e sender to d amt data|e from to d amt|m2|k ex h hook|e p idx l2b lo hi v bh|e ch idx|e sender idx m lo hi v bh|e m1];
+  destruct m as [e sender to d amt data|e from to d amt|m2|k ex h hook|e p idx l2b lo hi v bh|e ch idx|e sender idx m lo hi v bh|e m1|e mo];
     cbn [sys_step].
   - case_bool_decide; [done|]. unfold lift1. destruct (L1.step _ _ _ _) as [s1 [r|]]; done.
   - case_bool_decide; [done|]. unfold lift1. destruct (L1.step _ _ _ _) as [s1 [r|]]; [|done].
@@ -167,6 +173,7 @@ Proof.
   - unfold lift1. destruct (L1.step _ _ _ _) as [s1 [r|]]; done.
   - destruct (find_w (l2 s) m) as [w|]; [|done]. unfold lift1. destruct (L1.step _ _ _ _) as [s1 [r|]]; done.
   - destruct (l1_admin m1); [|done]. unfold lift1. destruct (L1.step _ _ _ _) as [s1 [r|]]; done.
+  - pose proof (other_step_spec c s e mo) as Hsp; cbn zeta in Hsp; cbn [sys_step] in Hsp; destruct Hsp as (-> & _). done.
 Qed.
 
 Lemma run_bank_sane c h : ∀ s, bank_sane (L2.bk (l2 s)) → bank_sane (L2.bk (l2 (sys_run c s h))).
@@ -388,7 +395,7 @@ Proof.
   assert (Hl2 : ∀ s2 ws, L2.wlog s2 = ws ++ L2.wlog (l2 s) → proven_paid c (set_l2 s s2)).
   { intros s2 ws Hw x Hx. cbn in *. destruct (J x Hx) as (w & Hin & Hp & ->). exists w.
     split; [rewrite Hw; apply elem_of_app; by right|done]. }
-  destruct m as [e sender to d amt data|e from to d amt|m2|k ex h hook|e p idx l2b lo hi v bh|e ch idx|e sender idx m lo hi v bh|e m1];
+  destruct m as [e sender to d amt data|e from to d amt|m2|k ex h hook|e p idx l2b lo hi v bh|e ch idx|e sender idx m lo hi v bh|e m1|e mo];
     cbn [sys_step].
   - case_bool_decide; [done|]. unfold lift1, L1.step. cbn [L1.handle].
     destruct (L1.deposit _ _ _ _ _ _ _ _ _) as [[s1 r]|] eqn:Hd; [|done].
@@ -422,6 +429,10 @@ Proof.
   - destruct (l1_admin m1) eqn:Ha; [|done]. unfold lift1, L1.step.
     destruct (L1.handle (c1 c) e (l1 s) m1) as [[s1 r]|] eqn:Hh; [|done].
     apply (l1_admin_frame _ _ _ _ _ _ Ha) in Hh as (_ & _ & _ & Hpr). by apply Hl1.
+  - pose proof (other_step_spec c s e mo) as Hsp; cbn zeta in Hsp; cbn [sys_step] in Hsp; destruct Hsp as (H2 & Hp & [->|(s1 & rr & Hok & Hh & Hl1o & _)]); [done|].
+    destruct (other_handle_spec c e (l1 s) mo s1 rr Hok Hh) as (_ & _ & Hpr & _).
+    intros x Hx. rewrite Hl1o in Hx. apply Hpr in Hx. destruct (J x Hx) as (w & ? & ? & ->).
+    exists w. rewrite H2, Hp. done.
 Qed.
 
 Lemma run_proven_paid c h : ∀ s, proven_paid c s → proven_paid c (sys_run c s h).
@@ -508,12 +519,36 @@ Qed.
 (* ------------------------------------------------------------------------------------ *)
 (* conservation of combined holdings: no step mints or burns on L1                         *)
 (* ------------------------------------------------------------------------------------ *)
+Lemma fee_loop_total cr pl fee d : ∀ b b',
+  L1DepLemmas.fee_loop cr pl b fee = Some b' → bal_total b' d = bal_total b d.
+Proof.
+  unfold L1DepLemmas.fee_loop. induction fee as [|[dn am] fee IH]; intros b b'; cbn.
+  - by intros [= <-].
+  - destruct (bank_send b cr pl dn am) as [b1|] eqn:Hs; cbn.
+    + intros Hf. rewrite (IH _ _ Hf). by eapply (BankTotal.btotal_send b cr pl dn am b1 d).
+    + rewrite L1DepLemmas.fee_loop_None. discriminate.
+Qed.
+
+Lemma other_handle_total c e s1 m s1' r d :
+  other_ok c m = true → L1.handle (c1 c) e s1 m = Some (s1', r) →
+  bal_total (L1.bk s1') d = bal_total (L1.bk s1) d.
+Proof.
+  intros Hok Hh. destruct m; try discriminate; cbn [L1.handle] in Hh.
+  - apply L1DepLemmas.create_Some in Hh as (cr & _ & _ & Hfee & _). by eapply fee_loop_total.
+  - apply l1_propose_effect in Hh as (Hb & _). by rewrite Hb.
+  - apply l1_delete_effect in Hh as (Hb & _). by rewrite Hb.
+  - apply L1DepLemmas.deposit_Some in Hh as (sd & _ & _ & _ & _ & _ & _ & _ & Hbk & _).
+    destruct (0 <? amt)%Z; [by eapply (BankTotal.btotal_send _ _ _ _ _ _ d)|by injection Hbk as <-].
+  - apply L1DepLemmas.finalize_Some in Hh as (rcv & _ & _ & _ & _ & _ & _ & _ & _ & _ & Hbk & _).
+    by eapply (BankTotal.btotal_send _ _ _ _ _ _ d).
+Qed.
+
 Lemma step_l1_total c s m d :
   bal_total (L1.bk (l1 (sys_step c s m).1)) d = bal_total (L1.bk (l1 s)) d.
 Proof.
   assert (Hsend : ∀ b from to d0 x b', bank_send b from to d0 x = Some b' → bal_total b' d = bal_total b d).
   { intros. by eapply (BankTotal.btotal_send b from to d0 x b' d). }
-  destruct m as [e sender to d0 amt data|e from to d0 amt|m2|k ex h hook|e p idx l2b lo hi v bh|e ch idx|e sender idx m lo hi v bh|e m1];
+  destruct m as [e sender to d0 amt data|e from to d0 amt|m2|k ex h hook|e p idx l2b lo hi v bh|e ch idx|e sender idx m lo hi v bh|e m1|e mo];
     cbn [sys_step].
   - case_bool_decide; [done|]. unfold lift1, L1.step. cbn [L1.handle].
     destruct (L1.deposit _ _ _ _ _ _ _ _ _) as [[s1 r]|] eqn:Hd; [|done]. cbn.
@@ -535,6 +570,8 @@ Proof.
   - destruct (l1_admin m1) eqn:Ha; [|done]. unfold lift1, L1.step.
     destruct (L1.handle (c1 c) e (l1 s) m1) as [[s1 r]|] eqn:Hh; [|done].
     apply (l1_admin_frame _ _ _ _ _ _ Ha) in Hh as (Hbk & _). cbn. by rewrite Hbk.
+  - pose proof (other_step_spec c s e mo) as Hsp; cbn zeta in Hsp; cbn [sys_step] in Hsp; destruct Hsp as (_ & _ & [->|(s1 & rr & Hok & Hh & -> & _)]); [done|].
+    by eapply other_handle_total.
 Qed.
 
 Lemma run_l1_total c h d : ∀ s, bal_total (L1.bk (l1 (sys_run c s h))) d = bal_total (L1.bk (l1 s)) d.
